@@ -92,14 +92,20 @@ def file_chunks(rng, net):
     return chunks
 
 
-def make_case(rng: random.Random, tier: str, thermal_p=0.25, mod_p=0.2, maxdeps=1, file_p=0.4, big=False, label_p=0.15, ice2_p=0.12) -> dict:
+def make_case(rng: random.Random, tier: str, thermal_p=0.25, mod_p=0.2, maxdeps=1, file_p=0.4, big=False, label_p=0.15, ice2_p=0.12, upper_p=0.2) -> dict:
     nspec = rng.randint(3, 22 if big else 9)
     nreac = rng.randint(1, 60 if big else 14)
     net = chem.structural_network(rng, nspec, nreac, extra_isolated=rng.choice([0, 1, 2]), surface=rng.random() < 0.3)
     case = {"net": net, "entry": "api", "indexed": rng.random() < 0.8}
-    if rng.random() < 0.2:
+    if rng.random() < upper_p:
         # upper-case element spelling with a replacement table (the UCLCHEM example's convention)
         un = chem.upper_variant(net)
+        for _ in range(20 if upper_p >= 1.0 else 0):
+            if un is not None:
+                break
+            # stratum case: draw networks until one can be spelled in upper case (no ortho/para labels)
+            net = case["net"] = chem.structural_network(rng, nspec, nreac, extra_isolated=rng.choice([0, 1, 2]), surface=rng.random() < 0.3)
+            un = chem.upper_variant(net)
         if un is not None:
             net = case["net"] = un
             case["spelling"] = "upper_replace"
@@ -244,7 +250,7 @@ def gen_cases(tier: str) -> list[dict]:
         r = random.Random(rng.getrandbits(64))
         # strata: every 6th case has ODE modifiers, every 6th comes through files (the rest by the default probabilities)
         cases.append(make_case(r, tier, big=(tier == "thorough" and i % 5 == 0), mod_p=(1.0 if i % 6 == 1 else 0.2), file_p=(1.0 if i % 6 == 2 else 0.4),
-                               label_p=(1.0 if i % 6 == 4 else 0.15), ice2_p=(1.0 if i % 6 == 3 else 0.12)))
+                               label_p=(1.0 if i % 6 == 4 else 0.15), ice2_p=(1.0 if i % 6 == 3 else 0.12), upper_p=(1.0 if i % 6 == 5 else 0.2)))
     if True:
         cases.append({"net": {"species": [], "reactions": [], "required": []}, "alphas": [], "entry": "api",
                       "ys": [{"__TGAS__": 1e4}], "ks": [[1.25]], "special": "empty"})
